@@ -134,7 +134,7 @@ impl ToTokens for DataMatchArm<'_> {
                     if let ::darling::export::syn::Meta::Path(_) = *__nested {
                         ::darling::export::Ok(#ty_ident::#variant_ident)
                     } else {
-                        ::darling::export::Err(::darling::Error::unsupported_format("non-path"))
+                        ::darling::export::Err(::darling::Error::unsupported_format("non-path").with_span(__nested))
                     }
                 },
             ));
@@ -172,7 +172,7 @@ impl ToTokens for DataMatchArm<'_> {
                             #inits
                         })
                     } else {
-                        ::darling::export::Err(::darling::Error::unsupported_format("non-list"))
+                        ::darling::export::Err(::darling::Error::unsupported_format("non-list").with_span(__nested))
                     }
                 }
             ));
